@@ -8,6 +8,10 @@ Streams
                  `await` on a per-step future which a driver coroutine resolves in the PRNG-chosen order
   cv             pure `contextvars` programmes (set/reset/get/copy_context/Context()) against
                  Py/ContextVars.lean
+  hprog          the single-core programmes translated to OBJECT-LEVEL operations (Context/Heap.lean: dict objects
+                 with identity, the caller's in-place mutations are operations): final contents of core.extra, of
+                 every logger's bound dict and of every record's extra, model vs the real objects
+  mprog          programmes that deep-copy loggers (several cores, one ContextVar) against Context/Multi.lean
 Every delivered record / patcher call is compared (a) with an independent executable specification of
 the property (`Spec`, below: layers and *open blocks*, no tokens) – the direct oracle – and (b) with
 the Lean model (Context/Model.lean through drivers/C12.lean) – the correspondence.  After EVERY
@@ -31,12 +35,17 @@ RULE = ("one case = one programme (a global trace of (execution context, operati
         "<= 4 contexts, 5 overlapping keys, values unique per operation so the layer of origin is visible) "
         "executed on real threads or asyncio tasks in the PRNG-chosen interleaving; non-trivial = at least one "
         "delivered record whose extra draws on >= 2 layers, or a record logged while another context has an "
-        "open block; distinct by the trace text + mode")
+        "open block; distinct by the trace text + mode; a third of the programmes deep-copy loggers (<= 3 cores); "
+        "single-core programmes are also run through the object-level model (hprog: contents of the dict objects)")
 TRUSTED = [
     "Py/ContextVars.lean models PEP 567 for one variable (validated by the `cv` stream against CPython)",
-    "the functional model cannot exhibit aliasing: immutability of shared dicts/lists is checked by re-reading "
-    "every logger and record after every operation (harness), not by the theorems",
-    "patchers are table-driven callables (set one key); arbitrary user patchers are a parameter of the theorems",
+    "aliasing: the object-level model Context/Heap.lean (dict objects with identity; construction sites evaluated from "
+    "their regenerated shapes) carries the immutability theorems and is tied by the hprog stream; patcher LISTS are "
+    "covered by the regenerated shape + re-reading every logger and record after every operation (harness)",
+    "patchers are table-driven callables (set / add to one key; truthy or falsy objects); arbitrary user patchers are a "
+    "parameter of the theorems",
+    "copy.deepcopy(logger): the harness's sinks and patcher objects are shared by the copies (functions are atomic for "
+    "deepcopy, the patcher objects define __deepcopy__); Handler/Core copying itself is loguru's",
 ]
 ASSUMPTIONS = ["Python >= 3.7 contextvars (threads start with an empty context: Python < 3.14 semantics)",
                "with-blocks of one context are left in LIFO order (Python syntax guarantees it)"]
@@ -140,7 +149,15 @@ def pick_logger(rng, st):
 
 def gen_program(rng, maxops, maxctx, asyncio_mode):
     """global trace: list of op dicts {"c": ctx, "op": kind, ...}"""
-    st = {"serial": 0, "npatch": 0, "nlog": 1, "nh": 0, "pdefs": {}, "chains": [[]], "recflag": [False]}
+    st = {"serial": 0, "npatch": 0, "nlog": 1, "nh": {0: 0}, "pdefs": {}, "chains": [[]], "recflag": [False],
+          "lcore": [0], "ncores": 1}
+    # a third of the programmes deep-copy loggers (copy.deepcopy(logger): a NEW core with its own extra, patcher
+    # and handlers – but the ContextVar is shared by every logger of the process) and then address configure /
+    # add / remove / contextualize to any of the cores
+    multi = rng.chance(33)
+
+    def pick_core():
+        return rng.below(st["ncores"]) if multi else 0
 
     def gen_log(c, kw):
         l = pick_logger(rng, st)
@@ -163,7 +180,7 @@ def gen_program(rng, maxops, maxctx, asyncio_mode):
 
     if rng.chance(92):
         emit(0, op="add")
-        st["nh"] += 1
+        st["nh"][0] += 1
     cur = 0
     while len(trace) < maxops and alive:
         if not rng.chance(55) or cur not in alive:
@@ -177,6 +194,16 @@ def gen_program(rng, maxops, maxctx, asyncio_mode):
             emit(c, op="mutate", what=rng.choice(["configure", "configure", "kw", "record"]), i=rng.below(64),
                  how=rng.choice(["set", "set", "del", "clear"]), key=pick_key(rng), val=st["serial"])
             continue
+        if multi and st["ncores"] < 3 and rng.chance(7):
+            l = pick_logger(rng, st)
+            emit(c, op="deepcopy", l=l)
+            st["chains"].append(list(st["chains"][l]))
+            st["recflag"].append(st["recflag"][l])
+            st["lcore"].append(st["ncores"])
+            st["nh"][st["ncores"]] = st["nh"][st["lcore"][l]]
+            st["ncores"] += 1
+            st["nlog"] += 1
+            continue
         r = rng.below(100)
         d = depth[c]
         if r < 30:
@@ -186,7 +213,11 @@ def gen_program(rng, maxops, maxctx, asyncio_mode):
                 style = "with"
                 if not asyncio_mode and rng.chance(40):
                     style = rng.choice(["deco", "deco-reuse"])
-                emit(c, op="enter", kw=gen_kw(rng, st, 0 if rng.chance(8) else 1, 2), style=style)
+                if multi:
+                    emit(c, op="enter", kw=gen_kw(rng, st, 0 if rng.chance(8) else 1, 2), style=style,
+                         l=pick_logger(rng, st))
+                else:
+                    emit(c, op="enter", kw=gen_kw(rng, st, 0 if rng.chance(8) else 1, 2), style=style)
                 depth[c] += 1
         elif r < 58:
             if d > 0:
@@ -211,6 +242,7 @@ def gen_program(rng, maxops, maxctx, asyncio_mode):
             emit(c, op="bind", l=l, kw=gen_kw(rng, st, 0 if rng.chance(10) else 1, 3))
             st["chains"].append(list(st["chains"][l]))
             st["recflag"].append(st["recflag"][l])
+            st["lcore"].append(st["lcore"][l])
             st["nlog"] += 1
         elif r < 78:
             l = pick_logger(rng, st)
@@ -222,6 +254,7 @@ def gen_program(rng, maxops, maxctx, asyncio_mode):
             emit(c, op="patch", l=l, p=pt)
             st["chains"].append(st["chains"][l] + [pt[0]])
             st["recflag"].append(st["recflag"][l])
+            st["lcore"].append(st["lcore"][l])
             st["nlog"] += 1
         elif r < 84:
             l = pick_logger(rng, st)
@@ -229,11 +262,15 @@ def gen_program(rng, maxops, maxctx, asyncio_mode):
             emit(c, op="opt", l=l, f=fl)
             st["chains"].append(list(st["chains"][l]))
             st["recflag"].append(bool(fl["record"]))
+            st["lcore"].append(st["lcore"][l])
             st["nlog"] += 1
         elif r < 89:
             extra = None if rng.chance(25) else gen_kw(rng, st, 0, 3)
             patcher = gen_patcher(rng, st) if rng.chance(35) else None
-            emit(c, op="configure", extra=extra, patcher=patcher)
+            if multi:
+                emit(c, op="configure", extra=extra, patcher=patcher, core=pick_core())
+            else:
+                emit(c, op="configure", extra=extra, patcher=patcher)
         elif r < 95:
             if nctx < maxctx:
                 emit(c, op="spawn", copy=(True if asyncio_mode and rng.chance(85) else rng.chance(50)), new=nctx)
@@ -241,13 +278,21 @@ def gen_program(rng, maxops, maxctx, asyncio_mode):
                 alive.append(nctx)
                 nctx += 1
         elif r < 97:
-            if st["nh"] < 3:
-                emit(c, op="add")
-                st["nh"] += 1
+            k = pick_core()
+            if st["nh"][k] < 3:
+                if multi:
+                    emit(c, op="add", core=k)
+                else:
+                    emit(c, op="add")
+                st["nh"][k] += 1
         elif r < 98:
-            if st["nh"] > 0:
-                emit(c, op="remove", i=rng.below(st["nh"]))
-                st["nh"] -= 1
+            k = pick_core()
+            if st["nh"][k] > 0:
+                if multi:
+                    emit(c, op="remove", i=rng.below(st["nh"][k]), core=k)
+                else:
+                    emit(c, op="remove", i=rng.below(st["nh"][k]))
+                st["nh"][k] -= 1
         else:
             if d == 0 and c != 0 and len(alive) > 1:
                 gen_log(c, [])
@@ -307,7 +352,7 @@ def op_token(op):
         return "%d:A" % c
     if k == "remove":
         return "%d:D:%d" % (c, op["i"])
-    if k in ("end", "mutate"):      # a mutation of caller-owned objects is invisible to the model: no token
+    if k in ("end", "mutate", "deepcopy"):      # a mutation of caller-owned objects is invisible to the model: no token
         return None
     raise ValueError(k)
 
@@ -316,6 +361,8 @@ def describe(op):
     """the call in Python spelling (for messages)"""
     k = op["op"]
     kws = ", ".join("%s=%d" % (key_name(a), b) for a, b in op.get("kw") or [])
+    if k == "deepcopy":
+        return "copy.deepcopy(logger#%d)" % op["l"]
     if k == "bind":
         return "logger#%d.bind(%s)" % (op["l"], kws)
     if k == "enter":
@@ -334,8 +381,50 @@ def describe(op):
     return op_token(op)
 
 
+def logger_cores(trace):
+    """core and core-local number of every logger of the programme, in creation order"""
+    lcore, local, ncores, count = [0], [0], 1, {0: 1}
+    for o in trace:
+        if o["op"] in ("bind", "patch", "opt"):
+            k = lcore[o["l"]]
+            lcore.append(k)
+            local.append(count[k])
+            count[k] += 1
+        elif o["op"] == "deepcopy":
+            lcore.append(ncores)
+            local.append(0)
+            count[ncores] = 1
+            ncores += 1
+    return lcore, local
+
+
+def model_order(trace):
+    """the Lean multi-core model lists loggers core by core"""
+    lcore, _ = logger_cores(trace)
+    return sorted(range(len(lcore)), key=lambda i: (lcore[i], i))
+
+
 def prog_line(trace):
-    return "prog " + " ".join(t for t in (op_token(o) for o in trace) if t)
+    if not any(o["op"] == "deepcopy" for o in trace):
+        return "prog " + " ".join(t for t in (op_token(o) for o in trace) if t)
+    # several cores (Context/Multi.lean): ctx:core:code:…, logger numbers local to the core
+    lcore, local = logger_cores(trace)
+    toks = []
+    for o in trace:
+        if o["op"] == "deepcopy":
+            toks.append("%d:%d:Y:%d" % (o["c"], lcore[o["l"]], local[o["l"]]))
+            continue
+        if "l" in o and o["op"] != "enter":
+            k = lcore[o["l"]]
+            o = dict(o)
+            o["l"] = local[o["l"]]
+        else:
+            k = o.get("core", 0)
+        t = op_token(o)
+        if t:
+            c, rest = t.split(":", 1)
+            toks.append("%s:%d:%s" % (c, k, rest))
+    return "mprog " + " ".join(toks)
 
 
 def parse_kw(tok):
@@ -371,6 +460,8 @@ def parse_model(out):
 def heap_line(trace, mut_res):
     """the programme as seen by the object-level model (Context/Heap.lean): dict objects with identity; the
     caller's in-place mutations ARE operations here"""
+    if any(o["op"] == "deepcopy" for o in trace):
+        return None
     spec = Spec()
     toks, nconf = [], 0
     for i, op in enumerate(trace):
@@ -397,9 +488,9 @@ def heap_line(trace, mut_res):
         elif k == "spawn":
             toks.append("%d:S:%d" % (c, 1 if op["copy"] else 0))
         elif k == "log":
-            if spec.handlers:
+            if spec.cores[0]["handlers"]:
                 o = spec.loggers[op["l"]]
-                chain = ([spec.core_patcher] if spec.core_patcher else []) + o["patchers"]
+                chain = ([spec.cores[0]["patcher"]] if spec.cores[0]["patcher"] else []) + o["patchers"]
                 toks.append("%d:L:%d:%s:%s" % (c, op["l"], kw_tok(op["kw"]),
                                                ";".join("%d,%d,%d,%d" % pwire(p) for p in chain) or "_"))
         elif k == "mutate":
@@ -434,11 +525,9 @@ class Spec:
         # mirror=True: the property EXCEPT that a configured patcher whose object is falsy is not called (the defect
         # F30, repaired by 8d54a52) – only used to CLASSIFY a disagreement (stable key), never to accept one
         self.mirror = mirror
-        self.core_extra = {}
-        self.core_patcher = None
-        self.handlers = []
-        self.next_h = 0
-        self.loggers = [{"flags": (0, 0, 0, 0, 0, 0, 1), "patchers": [], "bound": []}]   # bound: list of kw dicts
+        # one entry per Core (copy.deepcopy(logger) makes a new one); the context layers below are shared
+        self.cores = [{"extra": {}, "patcher": None, "handlers": [], "next_h": 0}]
+        self.loggers = [{"flags": (0, 0, 0, 0, 0, 0, 1), "patchers": [], "bound": [], "core": 0}]   # bound: list of kw dicts
         self.inherited = {0: {}}
         self.blocks = {0: []}
         self.expected = []       # events
@@ -467,36 +556,50 @@ class Spec:
             self.inherited[op["new"]] = self.ctx_layer(c) if op["copy"] else {}
             self.blocks[op["new"]] = []
         elif k == "configure":
+            core_ = self.cores[op.get("core", 0)]
             if op["extra"] is not None:
-                self.core_extra = dict(op["extra"])
+                core_["extra"] = dict(op["extra"])
             if op["patcher"] is not None:
-                self.core_patcher = list(op["patcher"])
+                core_["patcher"] = list(op["patcher"])
         elif k == "bind":
             o = self.loggers[op["l"]]
-            self.loggers.append({"flags": o["flags"], "patchers": o["patchers"], "bound": o["bound"] + [dict(op["kw"])]})
+            self.loggers.append({"flags": o["flags"], "patchers": o["patchers"], "bound": o["bound"] + [dict(op["kw"])],
+                                 "core": o["core"]})
         elif k == "patch":
             o = self.loggers[op["l"]]
-            self.loggers.append({"flags": o["flags"], "patchers": o["patchers"] + [list(op["p"])], "bound": o["bound"]})
+            self.loggers.append({"flags": o["flags"], "patchers": o["patchers"] + [list(op["p"])], "bound": o["bound"],
+                                 "core": o["core"]})
         elif k == "opt":
             o = self.loggers[op["l"]]
             f = op["f"]
             fl = (f["exception"], f["depth"], int(f["record"]), int(f["lazy"]), int(f["colors"]), int(f["raw"]),
                   int(f["capture"]))
-            self.loggers.append({"flags": fl, "patchers": o["patchers"], "bound": o["bound"]})
-        elif k == "add":
-            self.handlers.append(self.next_h)
-            self.next_h += 1
-        elif k == "remove":
-            del self.handlers[op["i"]]
-        elif k == "log":
-            if not self.handlers:
-                return
+            self.loggers.append({"flags": fl, "patchers": o["patchers"], "bound": o["bound"], "core": o["core"]})
+        elif k == "deepcopy":
+            # a logger over a NEW core: the source core's extra / patcher / handlers as they are now, the source
+            # logger's options; nothing of the context layers changes, and they stay common to all cores
             o = self.loggers[op["l"]]
+            src = self.cores[o["core"]]
+            self.cores.append({"extra": dict(src["extra"]), "patcher": src["patcher"],
+                               "handlers": list(src["handlers"]), "next_h": src["next_h"]})
+            self.loggers.append({"flags": o["flags"], "patchers": list(o["patchers"]), "bound": list(o["bound"]),
+                                 "core": len(self.cores) - 1})
+        elif k == "add":
+            core_ = self.cores[op.get("core", 0)]
+            core_["handlers"].append(core_["next_h"])
+            core_["next_h"] += 1
+        elif k == "remove":
+            del self.cores[op.get("core", 0)]["handlers"][op["i"]]
+        elif k == "log":
+            o = self.loggers[op["l"]]
+            core_ = self.cores[o["core"]]
+            if not core_["handlers"]:
+                return
             if o["flags"][2] and KEY_INDEX["record"] in dict(op["kw"]):
                 # documented restriction of opt(record=True); never generated, kept for shrunk traces
                 self.expected.append(("e", c, "TypeError"))
                 return
-            layers = [dict(self.core_extra), self.ctx_layer(c), {}]
+            layers = [dict(core_["extra"]), self.ctx_layer(c), {}]
             for kw in o["bound"]:
                 layers[2].update(kw)
             if o["flags"][6]:
@@ -506,8 +609,8 @@ class Spec:
                 extra.update(layer)
             if sum(1 for layer in layers if layer) >= 2 or any(self.blocks[x] for x in self.blocks if x != c):
                 self.nontrivial = True
-            chain = ([self.core_patcher] if self.core_patcher else []) + o["patchers"]
-            if self.mirror and self.core_patcher and pfalsy(self.core_patcher):
+            chain = ([core_["patcher"]] if core_["patcher"] else []) + o["patchers"]
+            if self.mirror and core_["patcher"] and pfalsy(core_["patcher"]):
                 chain = chain[1:]
             # once per ATTACHMENT, in the order of attachment – also when the same (or an equal) callable
             # was attached more than once
@@ -517,7 +620,7 @@ class Spec:
                 extra[key] = val if mode == 0 else extra.get(key, 0) + val
             if len(set(pdef(pt)[0] for pt in chain)) < len(chain):
                 self.repeated_patcher = True
-            for h in self.handlers:
+            for h in core_["handlers"]:
                 self.expected.append(("d", c, h, dict(extra)))
 
     def logger_view(self, i):
@@ -602,6 +705,9 @@ class PatcherObj:
         func.pid = pid
         self.func = func
 
+    def __deepcopy__(self, memo):       # user objects behind patchers are shared by deep-copied loggers
+        return self
+
     def apply(self, record):
         extra = record["extra"]
         self.run.events.append(("p", self.run.cur, self.pid, Run.canon(extra)))
@@ -617,6 +723,9 @@ class FalsyCallable:
 
     def __call__(self, record):
         self.obj.apply(record)
+
+    def __deepcopy__(self, memo):
+        return self
 
     def __eq__(self, other):
         return isinstance(other, FalsyCallable) and other.obj is self.obj
@@ -659,9 +768,10 @@ class Run:
         self.conf_dicts = []       # the dict objects handed to configure(extra=), kept by "the caller"
         self.kw_dicts = []         # the dict objects splatted into bind / contextualize / logging calls
         self.events = []
-        self.handler_ids = []      # loguru ids, in installation order
-        self.hnum = {}             # loguru id -> our number
-        self.next_h = 0
+        # one entry per Core: a logger over it (for configure/add/remove), loguru handler ids in installation
+        # order, our next handler number
+        self.cores = [{"logger": self.logger0, "handler_ids": [], "next_h": 0}]
+        self.lcore = [0]           # core of every logger
         self.cur = None            # context whose operation is being executed
         self.finals = {}
         self.alias = []            # aliasing violations: (step index, text)
@@ -729,7 +839,14 @@ class Run:
     # ---- the interpreter of one context (a coroutine; real `with` statements, real exceptions)
     def kwargs(self, kw, lazy=False, keep=True):
         if lazy:
-            d = {key_name(k): (lambda v=v: v) for k, v in kw}
+            self.thunk_calls = calls = {}
+
+            def thunk(k, v):
+                def f():
+                    calls[k] = calls.get(k, 0) + 1
+                    return v
+                return f
+            d = {key_name(k): thunk(k, v) for k, v in kw}
         else:
             d = {key_name(k): v for k, v in kw}
         if keep:
@@ -769,19 +886,41 @@ class Run:
         try:
             if k == "log":
                 o = lg[op["l"]]
-                kws = self.kwargs(op["kw"], lazy=bool(o._options[3]))
+                lazy = bool(o._options[3])
+                kws = self.kwargs(op["kw"], lazy=lazy)
                 via = op.get("via", "info")
+                delivered = bool(self.cores[self.lcore[op["l"]]]["handler_ids"])
                 if via == "log":
                     o.log("INFO", "m", **kws)
                 else:
                     getattr(o, via)("m", **kws)
+                if lazy:
+                    # opt(lazy=True): every callable is called exactly once when the record is built (and not
+                    # at all when no handler can receive it); anything else is an observable
+                    for kk, _v in op["kw"]:
+                        n = self.thunk_calls.get(kk, 0)
+                        if n != (1 if delivered else 0):
+                            self.events.append(("z", self.cur, kk, n))
+                            self.error_details.append("%s: the callable passed for %r was called %d times"
+                                                      % (describe(op), key_name(kk), n))
             elif k == "bind":
                 new = lg[op["l"]].bind(**self.kwargs(op["kw"]))
                 lg.append(new)
+                self.lcore.append(self.lcore[op["l"]])
                 self.lsnaps.append(self.snap_logger(new))
             elif k == "patch":
                 new = lg[op["l"]].patch(self.mk_patcher(op["p"]))
                 lg.append(new)
+                self.lcore.append(self.lcore[op["l"]])
+                self.lsnaps.append(self.snap_logger(new))
+            elif k == "deepcopy":
+                import copy as _copy
+                src = lg[op["l"]]
+                srck = self.cores[self.lcore[op["l"]]]
+                new = _copy.deepcopy(src)
+                lg.append(new)
+                self.lcore.append(len(self.cores))
+                self.cores.append({"logger": new, "handler_ids": list(srck["handler_ids"]), "next_h": srck["next_h"]})
                 self.lsnaps.append(self.snap_logger(new))
             elif k == "opt":
                 f = op["f"]
@@ -789,6 +928,7 @@ class Run:
                                       record=f["record"], lazy=f["lazy"], colors=f["colors"], raw=f["raw"],
                                       capture=f["capture"])
                 lg.append(new)
+                self.lcore.append(self.lcore[op["l"]])
                 self.lsnaps.append(self.snap_logger(new))
             elif k == "configure":
                 kwargs = {}
@@ -797,15 +937,17 @@ class Run:
                     self.conf_dicts.append(kwargs["extra"])
                 if op["patcher"] is not None:
                     kwargs["patcher"] = self.mk_patcher(op["patcher"])
-                self.logger0.configure(**kwargs)
+                self.cores[op.get("core", 0)]["logger"].configure(**kwargs)
             elif k == "add":
-                h = self.next_h
-                self.next_h += 1
-                hid = self.logger0.add(self.mk_sink(h), format="{message}", level=0, colorize=False, catch=False)
-                self.handler_ids.append(hid)
+                ck = self.cores[op.get("core", 0)]
+                h = ck["next_h"]
+                ck["next_h"] += 1
+                hid = ck["logger"].add(self.mk_sink(h), format="{message}", level=0, colorize=False, catch=False)
+                ck["handler_ids"].append(hid)
             elif k == "remove":
-                hid = self.handler_ids.pop(op["i"])
-                self.logger0.remove(hid)
+                ck = self.cores[op.get("core", 0)]
+                hid = ck["handler_ids"].pop(op["i"])
+                ck["logger"].remove(hid)
             elif k == "mutate":
                 self.mutate(op)
             else:
@@ -813,8 +955,13 @@ class Run:
         except Exception as e:  # an exception leaving a loguru call is an observable
             self.events.append(("e", self.cur, core.err_kind(e)))
             self.error_details.append("%s -> %s: %s" % (describe(op), type(e).__name__, e))
-            if k in ("bind", "patch", "opt"):     # keep logger numbering aligned: stand-in = the receiver
+            if k in ("bind", "patch", "opt", "deepcopy"):     # keep logger numbering aligned: stand-in = the receiver
                 lg.append(lg[op["l"]])
+                if k == "deepcopy":
+                    self.lcore.append(len(self.cores))
+                    self.cores.append(dict(self.cores[self.lcore[op["l"]]]))
+                else:
+                    self.lcore.append(self.lcore[op["l"]])
                 self.lsnaps.append(self.snap_logger(lg[op["l"]]))
 
     async def body(self, w, first_done):
@@ -856,7 +1003,7 @@ class Run:
                 w.finish()
 
     async def block(self, w, op):
-        lg = self.loggers[0]
+        lg = self.loggers[op.get("l", 0)]      # the ContextVar is common to all loggers and cores
         kw = self.kwargs(op["kw"])
         style = op.get("style", "with")
 
@@ -942,13 +1089,15 @@ class Run:
         if self.errors:
             raise RuntimeError("C12 harness: " + "; ".join(self.errors[:3]))
         # object-level observation: what the dict OBJECTS hold now (after every in-place change anybody made)
-        self.hobs = {"core": self.canon(self.logger0._core.extra),
-                     "loggers": [self.canon(lg._options[8]) for lg in self.loggers],
-                     "records": [self.canon(x) for x in self.rec_objs]}
-        try:
-            self.logger0.remove()
-        except Exception:
-            pass
+        if len(self.cores) == 1:
+            self.hobs = {"core": self.canon(self.logger0._core.extra),
+                         "loggers": [self.canon(lg._options[8]) for lg in self.loggers],
+                         "records": [self.canon(x) for x in self.rec_objs]}
+        for ck in self.cores:
+            try:
+                ck["logger"].remove()
+            except Exception:
+                pass
 
     def exec_threads(self):
         self.done = threading.Event()
@@ -1135,7 +1284,7 @@ def judge(ctx, trace, mode, model_out=None, report=True):
                 i += 1
             problems.append(("correspondence", "event #%d: model %r, implementation %r"
                              % (i, mev[i] if i < len(mev) else None, run.events[i] if i < len(run.events) else None)))
-        elif [(a, b, c) for a, b, c in mlg] != [(a, b, c) for a, b, c in run.lsnaps]:
+        elif [(a, b, c) for a, b, c in mlg] != [tuple(run.lsnaps[i]) for i in model_order(trace)]:
             problems.append(("correspondence", "logger options: model %r, implementation %r" % (mlg, run.lsnaps)))
         else:
             fin = [run.finals.get(c) for c in range(len(mfin))]
@@ -1155,7 +1304,8 @@ def shrink(trace, mode, kinds):
         return any(k in kinds for k, _ in pr)
 
     def valid(t):
-        depth, alive, nlog, nh = {0: 0}, {0}, 1, 0
+        depth, alive, nlog, nh = {0: 0}, {0}, 1, {0: 0}
+        lcore_ = [0]
         begun = set()
         for op in t:
             c, k = op["c"], op["op"]
@@ -1164,6 +1314,8 @@ def shrink(trace, mode, kinds):
             if k != "cancel":
                 begun.add(c)
             if k == "enter":
+                if op.get("l", 0) >= nlog:
+                    return False
                 depth[c] += 1
             elif k == "exit":
                 if depth[c] < 1:
@@ -1181,6 +1333,14 @@ def shrink(trace, mode, kinds):
             elif k in ("bind", "patch", "opt"):
                 if op["l"] >= nlog:
                     return False
+                lcore_.append(lcore_[op["l"]])
+                nlog += 1
+            elif k == "deepcopy":
+                if op["l"] >= nlog:
+                    return False
+                newk = max(nh) + 1
+                nh[newk] = nh[lcore_[op["l"]]]
+                lcore_.append(newk)
                 nlog += 1
             elif k == "log":
                 if op["l"] >= nlog:
@@ -1191,11 +1351,16 @@ def shrink(trace, mode, kinds):
                 depth[op["new"]] = 0
                 alive.add(op["new"])
             elif k == "add":
-                nh += 1
-            elif k == "remove":
-                if op["i"] >= nh:
+                if op.get("core", 0) not in nh:
                     return False
-                nh -= 1
+                nh[op.get("core", 0)] += 1
+            elif k == "remove":
+                if op.get("core", 0) not in nh or op["i"] >= nh[op.get("core", 0)]:
+                    return False
+                nh[op.get("core", 0)] -= 1
+            elif k == "configure":
+                if op.get("core", 0) not in nh:
+                    return False
             elif k == "end":
                 if depth[c] != 0:
                     return False
@@ -1278,7 +1443,7 @@ def shrink(trace, mode, kinds):
         changed = False
         i = len(cur) - 1
         while i >= 0 and budget > 0:
-            if cur[i]["op"] not in ("end",):
+            if cur[i]["op"] not in ("end", "deepcopy"):     # a copied core stays (its number is referred to)
                 cand = drop_op(cur, i)
                 if valid(cand):
                     budget -= 1
@@ -1373,7 +1538,9 @@ def evaluate(trace, mode):
     """one programme on the implementation, judged by the specification -> picklable result"""
     problems, r, spec = judge(None, trace, mode)
     return {"trace": trace, "mode": mode, "problems": problems, "events": r.events,
-            "lsnaps": [tuple(x) for x in r.lsnaps], "finals": dict(r.finals), "nworkers": len(r.workers),
+            "lsnaps": [tuple(r.lsnaps[i]) for i in model_order(trace)] if len(r.lsnaps) == len(model_order(trace))
+            else [tuple(x) for x in r.lsnaps],
+            "ncores": len(r.cores), "finals": dict(r.finals), "nworkers": len(r.workers),
             "nontrivial": spec.nontrivial, "repeated_patcher": spec.repeated_patcher,
             "hline": heap_line(trace, r.mut_res), "hobs": r.hobs, "mut_res": dict(r.mut_res)}
 
@@ -1414,6 +1581,9 @@ def run(ctx):
         ctx.stat("records_delivered", sum(1 for e in res["events"] if e[0] == "d"))
         ctx.stat("patcher_calls", sum(1 for e in res["events"] if e[0] == "p"))
         ctx.stat("contexts", res["nworkers"])
+        if res.get("ncores", 1) > 1:
+            ctx.stat("programs_with_deepcopied_loggers")
+            ctx.stat("cores", res["ncores"])
         if res.get("repeated_patcher"):
             ctx.stat("programs_logging_through_a_chain_with_a_repeated_patcher")
         ctx.stat("max_block_depth_%d" % max_depth(trace))
@@ -1471,7 +1641,7 @@ def run(ctx):
         ctx.stat("corpus")
 
     # ---- random programmes (thorough: spread over worker processes; sub-seeds do not depend on order)
-    n = ctx.n(1200, 40000) * boost
+    n = ctx.n(1000, 40000) * boost
     state = rng.s
     if ctx.quick or os.environ.get("VERIF_C12_SERIAL") == "1":
         for i in range(n):
